@@ -1,5 +1,5 @@
 """C01 -- 2-valued logic simulation computes the netlist's Boolean function."""
-from contracts import logic_sim_c, translate_c
+from contracts import logic_sim_c, translate_c, logic_io_c
 from pyvc.verify import verify
 from vk.common import PropertyResult
 from bounded import logic_drv
@@ -15,7 +15,7 @@ def run(tier, seed):
                          'slots, live slots off the scratch rows) every live slot holds its gate-by-gate value after every op, hence every captured line after the last. '
                          'Tier B (bounded): translation of the netlist into ops, assign/capture/state transfer/cycle and the composition to netlist level are checked '
                          'by running the real LogicSim against the gate-by-gate oracle on a stated circuit space.')
-    res.report = verify(logic_sim_c.targets(ms=(2,)) + logic_sim_c.composition_targets(ms=(2,)) + [logic_sim_c.lut_lemmas(), logic_sim_c.lifting_lemmas()] + translate_c.targets() + translate_c.targets_node(),
+    res.report = verify(logic_sim_c.targets(ms=(2,)) + logic_sim_c.composition_targets(ms=(2,)) + [logic_sim_c.lut_lemmas(), logic_sim_c.lifting_lemmas()] + translate_c.targets() + translate_c.targets_node() + logic_io_c.targets((1,)),
                         timeout_s=20 if tier == 'quick' else 120)
     from bounded import simops_drv
     res.bounded = [simops_drv.part(tier, seed, which=('map',), pid='C01'), logic_drv.logic_part('C01', (2,), tier, seed, with_cycles=True,
@@ -23,7 +23,7 @@ def run(tier, seed):
     res.assumptions = ['tier P requires (op codes among the 33 primitives, locations in range) hold for real SimOps instances: bounded part only',
                        'SimOps.__init__ translation: the body of the per-node loop is under contract for one symbolic node (which rows are appended: interface BUF1/INV1 rows from the interface '
                        'input slot, fork BUF1 rows unless stripped, one row per cell with the selected primitive, out0 or tmp, in0..in3 or the zero slot, the a_ctrl row of the output); that '
-                       'the node sequence is a topological order, the stems table and s_to_c/c_to_s/s_ppo_to_ppi/cycle (numpy advanced indexing): bounded part only',
+                       'the node sequence is a topological order, the stems table and the composition cycle() = (s_to_c; c_prop; c_to_s; s_ppo_to_ppi)^k: bounded part only; s_to_c / c_to_s / s_ppo_to_ppi are under contract with numpy gather / scatter as assumed element-wise contracts (index tables pairwise distinct)',
                        'CNTO (number of connected output pins below k) monotone: induction lemma proved as base+step, then assumed',
                        'the memory-map hypotheses A2-A5 of the composition contract and single production / topological order of the op list (S2, S3) hold for real SimOps instances: bounded part (check_live_hypotheses, MapValid)',
                        'ghost values V equal the netlist semantics only if the op list is the translation of the netlist: bounded part',
